@@ -1,4 +1,4 @@
 SPECIFICATION Spec
 CONSTANT Ns = {1, 2, 3, 4, 5, 6, 8}
-INVARIANT TypeOK NeighCount NeighLabels NeighSym NeighShares RepsOK StarFaceOK HierarchyOK
+INVARIANT TypeOK NeighCount NeighLabels NeighSym NeighShares RepsOK StarFaceOK HierarchyOK EdgesOK
 CHECK_DEADLOCK TRUE
